@@ -28,7 +28,14 @@ fn main() {
                             if p.is_dir() {
                                 walk(base, &p, out);
                             } else if let Ok(c) = std::fs::read_to_string(&p) {
-                                out.insert(p.strip_prefix(base).unwrap().to_string_lossy().to_string(), serde_json::Value::String(c));
+                                let rel = p.strip_prefix(base).unwrap().to_string_lossy().to_string();
+                                // files the owner may execute are listed a second time under "<name>#exec"
+                                // (pack copies the app with its permission bits)
+                                use std::os::unix::fs::PermissionsExt;
+                                if std::fs::metadata(&p).map(|m| m.permissions().mode() & 0o100 != 0).unwrap_or(false) {
+                                    out.insert(format!("{rel}#exec"), serde_json::Value::String("yes".into()));
+                                }
+                                out.insert(rel, serde_json::Value::String(c));
                             }
                         }
                     }
